@@ -211,7 +211,7 @@ def run(tier='quick', seed=0, only=None, verbose=False):
         stubs=['BaseBackend._solve replaced by a capturing, tag-returning stub (monkey-patched from the harness)'],
         assumptions=['reals for floats', 'a column label names a variable as: dict key (single match), (key, *node path, '
                      'op/var) for wildcard matches, full path string for list requests',
-                     'population outputs: C16', 'inputs use the same path resolution and are decided in C08'])
+                     'population outputs: C16', 'inputs: the wildcard one-column-per-node jobs of C08 are run here as well; all other input forms are decided in C08'])
     base = []
     base += families.fam_hierarchy()[1:2] + families.fam_hierarchy()[5:6]
     base += families.fam_mixed_nodes(seed, n=2)
@@ -271,6 +271,31 @@ def run(tier='quick', seed=0, only=None, verbose=False):
             rep.violation(rec, v.get('finding') or findings.attribute('C06', job, rec))
         for i in r['inconclusive']:
             rep.inconcl(dict(key=job['key'], **{k: str(x)[:200] for k, x in i.items()}))
+    # the same paths as INPUT targets: wildcard with one column per addressed node (harness of C08; column i must drive the
+    # i-th node the path addresses, in the order the same path yields as an output)
+    from . import c08
+    ij = [j for j in c08.jobs_for(tier) if j['cols'] > 0 and j['target'].startswith('all/')]
+    if only:
+        ij = [j for j in ij if only in j['key']]
+    for job, outc in runner.run_jobs(c08.input_job, ij, timeout=600):
+        if not outc['ok']:
+            rep.harness_error(f"{job['key']}: {outc['error']} {outc.get('tb', '')[-400:]}")
+            continue
+        r = outc['result']
+        rep.add_stats(outc['stats'])
+        rep.add_tally(r['tally'])
+        rep.program(job['key'], nontrivial=bool(r['obligations']))
+        if 'compile_error' in r:
+            rec = dict(property='C06', key=job['key'], kind='compile-raises',
+                       what=f"{job['key']}: well-formed input request is rejected: {r['compile_error'][:300]}")
+            rep.violation(rec, findings.attribute('C06', job, rec))
+            continue
+        for v in r['violations']:
+            rec = dict(property='C06', key=job['key'], emitted_source=r['src'], **v)
+            rec['what'] = f"{job['key']}: {v.get('what')}"
+            rep.violation(rec, v.get('finding') or findings.attribute('C06', job, rec))
+        for i in r['inconclusive']:
+            rep.inconcl(dict(key=job['key'], **{k: str(x)[:300] for k, x in i.items()}))
     return rep.finish(rule='program = (circuit, node declaration order, output request, vectorize); obligations: TV of the '
                            'function captured inside run() (identity of every state position) + every DataFrame column '
                            'carries the state index of the variable its label names, and the columns are exactly the '
